@@ -28,16 +28,24 @@ fn reps() -> Vec<(u32, Option<u32>, Mode)> {
     vec![(0, Some(1), Mode::Greedy), (0, None, Mode::Greedy), (1, None, Mode::Lazy), (2, Some(2), Mode::Greedy), (0, None, Mode::Poss)]
 }
 
+/// Simple case folding orbits with more than two members or members of different UTF-8 length
+/// (written from the Unicode tables, independent of the crate).
+pub fn orbit(c: char) -> Option<&'static str> {
+    ["kK\u{212a}", "sS\u{17f}", "\u{1c4}\u{1c5}\u{1c6}", "\u{df}\u{1e9e}", "\u{e9}\u{c9}"].into_iter().find(|o| o.contains(c))
+}
+
 /// Case-insensitivity spelled out: every literal / class inside an active `i` scope is replaced by
 /// a class that lists both cases and the flag groups are dropped - an independent statement of what
 /// `(?i)P` means for the atoms of this space. None if the tree has an atom the table does not know.
-fn desugar(n: &Node, active: bool) -> Option<Node> {
+pub fn desugar(n: &Node, active: bool) -> Option<Node> {
     let bx = |n: Node| Box::new(n);
     Some(match n {
         Lit(l) if active => {
             let mut v = vec![];
             for c in l.chars() {
-                if c.is_ascii_alphabetic() {
+                if let Some(o) = orbit(c) {
+                    v.push(Node::class(&format!("[{}]", o)));
+                } else if c.is_ascii_alphabetic() {
                     v.push(Node::class(&format!("[{}{}]", c.to_ascii_lowercase(), c.to_ascii_uppercase())));
                 } else if c.to_lowercase().to_string() == c.to_uppercase().to_string() {
                     v.push(Node::lit(&c.to_string()));
@@ -119,7 +127,26 @@ pub fn run(ctx: &Ctx) -> Outcome {
         patterns.push(Atomic(bx(Alt(vec![big(n), Node::lit("ab")]))));
     }
     let texts = gen::texts(&["a", "A", "b", "B"], ctx.tier.pick(3, 3));
-    let acc = par_run(&patterns, false, Some(5_000_000), |_, p, acc| {
+    let mut text_sets = vec![texts.clone()];
+    let mut items: Vec<(Node, usize)> = patterns.into_iter().map(|p| (p, 0)).collect();
+    // letters whose case orbit has three members or members of different UTF-8 length
+    // (k K KELVIN, s S LONG-S, the three DZ-WITH-CARON letters incl. the titlecase one, sharp s)
+    {
+        let fold_atoms = vec![
+            Node::lit("k"), Node::lit("\u{17f}"), Node::lit("\u{1c5}"), Node::lit("\u{1c6}"), Node::lit("\u{df}"), Node::lit("ks"),
+            Flags("".into(), "i".into(), Some(Box::new(Node::lit("k")))), Assert(A::WordB), Backref(1), Any(false),
+        ];
+        let mut g2 = Gen::with_atoms(fold_atoms, vec![(0, Some(1), Mode::Greedy), (1, None, Mode::Lazy), (2, Some(2), Mode::Greedy)], false, true);
+        let small = g2.upto(3);
+        text_sets.push(gen::texts(&["k", "K", "\u{212a}", "s", "\u{17f}", "\u{1c4}", "\u{1c5}", "\u{1c6}", "\u{df}", "\u{1e9e}"], 2));
+        let set = text_sets.len() - 1;
+        for p in gen::products(&g2.upto(1)).into_iter().chain(small) {
+            items.push((p, set));
+        }
+    }
+    let n_fold = items.iter().filter(|(_, s)| *s != 0).count();
+    let acc = par_run(&items, false, Some(5_000_000), |_, (p, set), acc| {
+        let texts = &text_sets[*set];
         if !p.refs_exist() {
             return;
         }
@@ -157,7 +184,7 @@ pub fn run(ctx: &Ctx) -> Outcome {
         acc.count(if vm { "route:vm" } else { "route:wrapped" });
         let all = |re: &fancy_regex::Regex| -> Vec<Got<Option<crate::refm::Caps>>> {
             let mut v = vec![];
-            for t in &texts {
+            for t in texts {
                 for from in gen::offsets(t) {
                     v.push(captures_from(re, t, from));
                 }
@@ -166,7 +193,7 @@ pub fn run(ctx: &Ctx) -> Outcome {
         };
         let compare = |acc: &mut Acc, what: &str, opts: serde_json::Value, a: &[Got<Option<crate::refm::Caps>>], b: &[Got<Option<crate::refm::Caps>>], apat: &str| {
             let mut k = 0;
-            for t in &texts {
+            for t in texts {
                 for from in gen::offsets(t) {
                     acc.evals += 1;
                     if a[k] != b[k] {
@@ -282,7 +309,7 @@ pub fn run(ctx: &Ctx) -> Outcome {
         if let Got::Val(r0) = compile_with(&s, |b| { b.backtrack_limit(0); }) {
             let w = all(&r0);
             let mut k = 0;
-            for t in &texts {
+            for t in texts {
                 for from in gen::offsets(t) {
                     let ok = w[k] == base[k] || (vm && w[k] == Got::Err("RuntimeError(BacktrackLimitExceeded)".into()));
                     if !ok {
@@ -301,7 +328,7 @@ pub fn run(ctx: &Ctx) -> Outcome {
     });
     let mut out = Outcome::new(acc);
     out.distinct_nontrivial = out.acc.distinct;
-    out.rule = format!("{} patterns: all trees of <= 4 nodes (thorough: plus a sixth of the 5-node trees) over a A b . [ab] [^a] [A-B] ^ \\b \\1 (?-i:a) (?i:b) with groups, atomic groups, look-arounds, 5 quantifier forms; context products; patterns with large delegated pieces (\\w{{n}} plain, before a look-ahead, around \\b, in a back-referenced group, in an atomic alternation); x {} texts over {{a,A,b,B}} x every offset. (a) case_insensitive(true) must give exactly the captures of \"(?i)\"+P; (e) case_insensitive(true) on P must also give the captures of P with both cases of every letter spelled out as classes and the flag groups dropped (an independent statement of what the flag means); (b) case_insensitive(false), huge limits and a zero DFA cache must not change anything; (c) delegate_size_limit(n) for n in {{1,200,5000,100000}}: the build must fail when regex-automata's own meta::Builder rejects a delegated piece (each Delegate pattern of the VM program, or the whole pattern) under nfa_size_limit(n) and succeed with unchanged results when it accepts all of them - judged only where the oracle gives the same verdict at n/4 and 4n; (d) backtrack_limit(0): plain patterns unchanged, fancy ones unchanged or BacktrackLimitExceeded. Non-trivial: distinct patterns whose results change under case_insensitive(true).", patterns.len(), texts.len());
+    out.rule = format!("{} patterns: all trees of <= 4 nodes (thorough: plus a sixth of the 5-node trees) over a A b . [ab] [^a] [A-B] ^ \\b \\1 (?-i:a) (?i:b) with groups, atomic groups, look-arounds, 5 quantifier forms; context products; patterns with large delegated pieces (\\w{{n}} plain, before a look-ahead, around \\b, in a back-referenced group, in an atomic alternation); x {} texts over {{a,A,b,B}} x every offset; plus {} patterns (trees of <= 3 nodes and context products) over k, LONG-S, the titlecase and lower-case DZ-WITH-CARON letters, sharp s, ks, (?-i:k), \\b, \\1 x all texts of <= 2 letters over their case orbits (k K KELVIN-SIGN s LONG-S and the three DZ letters, both sharp s). (a) case_insensitive(true) must give exactly the captures of \"(?i)\"+P; (e) case_insensitive(true) on P must also give the captures of P with both cases of every letter spelled out as classes and the flag groups dropped (an independent statement of what the flag means); (b) case_insensitive(false), huge limits and a zero DFA cache must not change anything; (c) delegate_size_limit(n) for n in {{1,200,5000,100000}}: the build must fail when regex-automata's own meta::Builder rejects a delegated piece (each Delegate pattern of the VM program, or the whole pattern) under nfa_size_limit(n) and succeed with unchanged results when it accepts all of them - judged only where the oracle gives the same verdict at n/4 and 4n; (d) backtrack_limit(0): plain patterns unchanged, fancy ones unchanged or BacktrackLimitExceeded. Non-trivial: distinct patterns whose results change under case_insensitive(true).", items.len() - n_fold, texts.len(), n_fold);
     out.assumptions = vec!["regex-automata is the oracle for 'exceeds the size limit'; pieces are read from Regex::debug_print".into()];
     let (cv, ci, rv, rw) = (out.acc.get("casei-changes-results:vm"), out.acc.get("casei-changes-results:with-inner-(?-i"), out.acc.get("size-limit-rejections:vm"), out.acc.get("size-limit-rejections:wrapped"));
     out.extra = json!({"casei_changes_results_vm": cv, "with_inner_minus_i": ci, "size_limit_rejections": {"vm": rv, "wrapped": rw}});
